@@ -93,6 +93,10 @@ func DriveTree(r *rec.Rec, rng *rand.Rand, run, ops int, variant string) {
 	if cascade {
 		kind = []string{"int", "cmp", "set"}[run%3]
 	}
+	deep := kind == "deep" // four levels: a monotone fill of the whole universe, then work on the keys of the inner nodes
+	if deep {
+		kind = []string{"int", "cmp", "zero", "rev"}[run%4]
+	}
 	if kind == "mix" {
 		kind = []string{"int", "cmp", "rev", "str", "set", "setcmp", "zero"}[run%7]
 	}
@@ -127,7 +131,7 @@ func DriveTree(r *rec.Rec, rng *rand.Rand, run, ops int, variant string) {
 		}
 		if withShape && !noShape {
 			muts++
-			if (muts%shapeEvery == 0 && !cascade) || shapeNow {
+			if (muts%shapeEvery == 0 && !cascade && !deep) || shapeNow {
 				var s ShapeInt
 				if msg := rec.Try(func() { s = sh.ShapeInt() }); msg != "" {
 					ev["op"], ev["panic"] = "PANIC reading shape after "+name, msg
@@ -353,6 +357,9 @@ func DriveTree(r *rec.Rec, rng *rand.Rand, run, ops int, variant string) {
 	// time its predecessor is promoted into the slot - without any refill in between
 	sepDrain := func() {
 		lvl, ord, slot := rng.Intn(2), rng.Intn(16), rng.Intn(15)
+		if deep {
+			lvl = rng.Intn(3)
+		}
 		for n := 8 + rng.Intn(8); n > 0 && !dead; n-- {
 			var cand []tree.VerifNode[int]
 			for _, nd := range innerNodes() {
@@ -452,6 +459,29 @@ func DriveTree(r *rec.Rec, rng *rand.Rand, run, ops int, variant string) {
 		return c
 	}
 
+	if deep {
+		for i := 0; i < U && !dead; i++ {
+			if run%2 == 0 {
+				put(1 + i)
+			} else {
+				put(U - i)
+			}
+		}
+		for round := 0; round < ops && !dead; round++ {
+			shapeNow = !noShape
+			sepDrain()
+			shapeNow = false
+			for j := 0; j < 6 && !dead; j++ {
+				lookup(nearIter())
+				lookup(1 + rng.Intn(U))
+			}
+			if cleanIter && round%3 == 2 {
+				newIter(1)
+				drainIter(1)
+			}
+		}
+		return
+	}
 	// ---- kind "cascade": steer by the structure itself - make a chosen child (run%16) of an exactly full inner node split,
 	// first with the root as that node (the tree grows a level), then with an inner node below the root
 	if cascade {
